@@ -3,6 +3,7 @@ package sym
 import (
 	"fmt"
 	"os"
+	"time"
 	"go/constant"
 	"go/token"
 	"go/types"
@@ -87,6 +88,9 @@ type Exec struct {
 	univ          []*T
 	consumed      map[*Cell]*T
 	batch         []batched // implicit checks assumed but not yet discharged
+	deadline      time.Time
+	deadlineHit   bool
+	lastDL        int64
 }
 
 type batched struct {
@@ -153,7 +157,22 @@ func (ex *Exec) assume(c *T) {
 
 func (ex *Exec) inNewTerritory() bool { return ex.pos >= len(ex.prefix) }
 
+// expire ends the path (inconclusive) once its deadline has passed; called before every solver query.
+func (ex *Exec) expire() {
+	if ex.deadline.IsZero() || time.Now().Before(ex.deadline) {
+		return
+	}
+	if !ex.deadlineHit {
+		ex.deadlineHit = true
+		ex.stats.Inconclusive++
+		ex.report(Report{Kind: "inconclusive", Label: "per-path time limit exceeded (solver queries)", Status: "inconclusive"})
+	}
+	ex.batch = nil
+	panic(pathEnd{"deadline"})
+}
+
 func (ex *Exec) sat(extra ...*T) smt.Result {
+	ex.expire()
 	ex.flush()
 	as := make([]*T, 0, len(ex.pc)+len(extra))
 	as = append(as, ex.pc...)
@@ -171,6 +190,10 @@ func (ex *Exec) satModel(extra ...*T) (smt.Result, map[string]uint64) {
 // flush discharges the batched implicit checks with one query (and individually if that query is satisfiable).
 func (ex *Exec) flush() {
 	if len(ex.batch) == 0 {
+		return
+	}
+	if !ex.deadline.IsZero() && time.Now().After(ex.deadline) {
+		ex.batch = nil
 		return
 	}
 	b := ex.batch
@@ -222,6 +245,9 @@ func (ex *Exec) flush() {
 }
 
 func (ex *Exec) satModelNoFlush(extra ...*T) (smt.Result, map[string]uint64) {
+	if !ex.deadline.IsZero() && time.Now().After(ex.deadline) {
+		return smt.Unknown, nil
+	}
 	as := make([]*T, 0, len(ex.pc)+len(extra))
 	as = append(as, ex.pc...)
 	as = append(as, extra...)
@@ -462,10 +488,12 @@ func (ex *Exec) concretize(t *T, what string, cap int) uint64 {
 		ex.assume(ex.C.Eq(t, ex.C.Const(d.Val, t.W())))
 		return d.Val
 	}
+	ex.expire()
 	ex.flush()
 	var vals []uint64
 	var block []*T
 	for len(vals) <= cap {
+		ex.expire()
 		as := append(append([]*T{}, ex.pc...), block...)
 		ex.stats.FeasQueries++
 		r, m := ex.S.Check(as, []*T{t})
@@ -761,15 +789,33 @@ func (fr *frame) run(b, pred, stop *ssa.BasicBlock) armResult {
 		if b == stop {
 			return armResult{kind: armJoin, pred: pred, phiVals: phiVals}
 		}
+		if ex.steps-ex.lastDL > 2000 {
+			ex.lastDL = ex.steps
+		}
+		if ex.lastDL == ex.steps && !ex.deadline.IsZero() && time.Now().After(ex.deadline) {
+			if !ex.deadlineHit {
+				ex.deadlineHit = true
+				ex.stats.Inconclusive++
+				ex.report(Report{Kind: "inconclusive", Label: "per-path time limit exceeded in " + fr.fn.String(), Status: "inconclusive"})
+			}
+			panic(pathEnd{"deadline"})
+		}
 		if lim := ex.H.Unwind; lim > 0 && ex.inInit == 0 {
 			if fr.visits == nil {
 				fr.visits = map[*ssa.BasicBlock]int{}
 			}
 			fr.visits[b]++
 			if fr.visits[b] > lim {
-				if ex.inNewTerritory() {
-					ex.stats.Inconclusive++
-					ex.report(Report{Kind: "unwind", Label: fmt.Sprintf("unwinding limit %d exceeded in %s block %d", lim, fr.fn, b.Index), Site: ex.site(fr.fn.Pos(), fr.fn), Status: "inconclusive"})
+				if ex.inNewTerritory() && ex.mergeDepth == 0 {
+					// a loop still running after the unwinding limit: candidate non-termination, confirmed (or not) natively
+					r, model := ex.satModel()
+					if r == smt.Sat {
+						ex.stats.Violated++
+						ex.report(Report{Kind: "hang", Label: fmt.Sprintf("loop still running after %d iterations in %s", lim, fr.fn), Site: ex.site(fr.fn.Pos(), fr.fn), Status: "violated", Model: model})
+					} else {
+						ex.stats.Inconclusive++
+						ex.report(Report{Kind: "unwind", Label: fmt.Sprintf("unwinding limit %d exceeded in %s block %d", lim, fr.fn, b.Index), Site: ex.site(fr.fn.Pos(), fr.fn), Status: "inconclusive"})
+					}
 				}
 				panic(pathEnd{"unwind"})
 			}
